@@ -37,7 +37,7 @@ Proof.
   destruct (match truthy (k_nlyearday k) with
             | Some v => (v, k_leapdays k)
             | None => match truthy (k_yearday k) with
-                      | Some v => (v, if 59 <? v then -1 else k_leapdays k)
+                      | Some v => (v, if (59 <? v) && (v <? 366) then -1 else k_leapdays k)
                       | None => (0, k_leapdays k)
                       end
             end) as [yday leap].
